@@ -104,7 +104,9 @@ NUM_ATOMS = ["x", "z", "w", "bq", "center(x)", "scale(z)", "I(x + 1)", "{w * 2}"
 CAT_ATOMS = ["f", "g", "h", "o", "c", "C(k)", "C(f, Sum)", "C(g, Treatment)", "S(h)", "T(f)", "C(o)",
              "C(h, Sum('v'))", "C(f, Treatment('b'))", "T(g, 'q')", "S(f, 'a')", "C(k, Treatment(2))",
              # calls whose RESULT is categorical (Call.eval_categoric), nested boxes
-             "I(f)", "{g}", "I(o)", "I(c)", "C(C(f))", "C(C(h), Sum)"]
+             "I(f)", "{g}", "I(o)", "I(c)", "C(C(f))", "C(C(h), Sum)",
+             # an unordered Categorical with unsorted declared categories inside a coding call
+             "C(c)", "S(c)", "T(c)"]
 
 
 def rand_term(rng, max_arity=3, num_atoms=NUM_ATOMS, cat_atoms=CAT_ATOMS, p_num=0.4):
@@ -136,10 +138,12 @@ def rand_common(rng, nterms=None, **kw):
 
 def rand_group(rng):
     eff = rng.choice(["1", "x", "0 + x", "f", "0 + f", "x + z", "center(x)", "x:f", "0 + x + z", "1 + x", "h",
-                      "C(k)", "0 + C(k)", "scale(z)", "x*f",
+                      "C(k)", "0 + C(k)", "scale(z)", "x*f", "C(c)", "0 + S(c)",
                       # effects that are multi-column numeric transforms (their block is #groups x #columns wide)
                       "0 + bs(x, df=3)", "bs(x, df=3)", "0 + poly(x, 2, raw=True)"])
-    grp = rng.choice(["g", "g:h", "g + h", "g/h", "C(k)", "h", "k", "o", "f:h"])
+    grp = rng.choice(["g", "g:h", "g + h", "g/h", "C(k)", "h", "k", "o", "f:h", "C(c)", "C(c):h"])
+    if "c" in eff and "c" in grp:
+        grp = "g"
     return f"({eff} | {grp})"
 
 
